@@ -34,6 +34,8 @@ type faultPlan struct {
 	Kind    string `json:"kind"`
 	Persist bool   `json:"persist"`
 	Exch    int    `json:"exch"`
+	// Refuse: the server refuses the version negotiation it receives on the second connection, inside Dial
+	Refuse bool `json:"refuse"`
 }
 
 type faultWorld struct {
@@ -142,6 +144,13 @@ func (fw *faultWorld) serve(g int, b *memnet.Conn) {
 		switch pl := req.BatchItem[0].RequestPayload.(type) {
 		case *payloads.DiscoverVersionsRequestPayload:
 			resp.BatchItem = []kmip.ResponseBatchItem{{Operation: kmip.OperationDiscoverVersions, ResponsePayload: &payloads.DiscoverVersionsResponsePayload{ProtocolVersion: []kmip.ProtocolVersion{kmip.V1_4, kmip.V1_2}}}}
+			fw.mu.Lock()
+			refuse := fw.plan.Refuse && g == 2 && fw.exch == 1
+			fw.mu.Unlock()
+			if refuse {
+				resp.BatchItem = []kmip.ResponseBatchItem{{Operation: kmip.OperationDiscoverVersions, ResultStatus: kmip.ResultStatusOperationFailed,
+					ResultReason: kmip.ResultReasonPermissionDenied, ResultMessage: "negotiation refused"}}
+			}
 		case *payloads.ActivateRequestPayload:
 			resp.BatchItem = []kmip.ResponseBatchItem{{Operation: kmip.OperationActivate, ResponsePayload: &payloads.ActivateResponsePayload{UniqueIdentifier: pl.UniqueIdentifier}}}
 		default:
@@ -204,7 +213,7 @@ func runFaultCase(w *vh.Writer, ci int, plan faultPlan) (problems []string) {
 	if ci%2 == 1 {
 		fw.chunk = 3 // the client reads the response three bytes at a time
 	}
-	w.Emit(map[string]any{"ev": "case", "pt": plan.Pt, "kind": plan.Kind, "persist": plan.Persist, "exch": plan.Exch, "n": ci})
+	w.Emit(map[string]any{"ev": "case", "pt": plan.Pt, "kind": plan.Kind, "persist": plan.Persist, "exch": plan.Exch, "refuse": plan.Refuse, "n": ci})
 	var cl *kmipclient.Client
 	for e := 1; e <= 4; e++ {
 		fw.mu.Lock()
@@ -313,6 +322,13 @@ func runFaultCase(w *vh.Writer, ci int, plan faultPlan) (problems []string) {
 		default:
 			bad("hang:a call on a closed client does not return")
 		}
+	}
+	// every connection the client was given is its own to close: with the servers still there (they would wait for ever), nothing of
+	// the client is left once it is closed - or never came to exist because Dial failed
+	time.Sleep(time.Second)
+	synctest.Wait()
+	if n := clientGoroutines(); n > base {
+		bad("leak:%d goroutine(s) running client code are left after Close while the servers are still connected (a connection was abandoned without being closed)", n-base)
 	}
 	fw.mu.Lock()
 	for _, s := range fw.servers {
